@@ -107,7 +107,32 @@ def witness_hash(extra_files=()):
 def facts_path(witness, cfg, variant, std='c++11', extra=(), repo=None, src=None):
     key = common.sha(repo_hash(repo), tool_hash(), witness_hash([src] if src else ()), witness, cfg, variant, std,
                      ' '.join(extra), repo or common.REPO)
-    return os.path.join(CACHE_DIR, 'facts', '%s-%s-%s-%s.json' % (witness, cfg or 'none', variant, key))
+    return os.path.join(cache_root(repo), '%s-%s-%s-%s.json' % (witness, cfg or 'none', variant, key))
+
+
+_pruned = set()
+
+
+def cache_root(repo=None):
+    """facts cache directory for this tree state. Scratch copies of the repository (self-test) keep their cache inside the
+    scratch directory, so it disappears with it; for /repo, caches of older tree states are pruned."""
+    repo = repo or common.REPO
+    if os.path.realpath(repo) != os.path.realpath('/repo'):
+        d = os.path.join(repo, '.verif-facts')
+        os.makedirs(d, exist_ok=True)
+        return d
+    base = os.path.join(CACHE_DIR, 'facts')
+    d = os.path.join(base, repo_hash(repo) + '-' + tool_hash()[:8])
+    if d not in _pruned:
+        _pruned.add(d)
+        if os.path.isdir(base):
+            import shutil
+            for other in os.listdir(base):
+                p = os.path.join(base, other)
+                if p != d:
+                    shutil.rmtree(p, ignore_errors=True) if os.path.isdir(p) else os.unlink(p)
+        os.makedirs(d, exist_ok=True)
+    return d
 
 
 def extract(witness, cfg, variant, std='c++11', extra=(), repo=None, src=None):
